@@ -73,7 +73,7 @@ class Ctx:
             self.notes.append("model driver rc=%s: %s" % (res.mrc, res.merr[-300:]))
         d = None
         for i, (a, b) in enumerate(zip(res.hrecs, res.mrecs)):
-            if a["op"] in ("specdecode", "savex") or (scope and not scope(a)): continue
+            if a["op"] in ("specdecode", "savex", "lwcheck") or (scope and not scope(a)): continue
             if a["res"] != b["res"] or a["lines"] != b["lines"]:
                 d = i; break
         if d is None and not res.crash and len(res.hrecs) != len(res.mrecs):
